@@ -99,6 +99,16 @@ async def run(ctx):
                 await check_shipped(ctx, case)
             if i % 300 == 0:
                 ctx.sample({"s": case["s"], "rc_keys": G.keys_of(case["ast"], "rc")}, cls="expression")
+        # ---- small scope, complete: EVERY valid expression with up to 3 (thorough: 4) leaves over {[1], [2], [501], [901], [902]} x all assignments
+        idx = 0
+        for n in range(1, (3 if ctx.quick else 4) + 1):
+            for ast in G.enumerate_asts(n):
+                idx += 1
+                if not ctx.mine(idx) or logic.structurally_invalid(ast):
+                    continue
+                await check_expression(ctx, {"ast": ast, "s": G.render(ast, rng, G.Style(p_redundant=0.0, flat_runs=0.0, spell=0, ws=""))}, async_budget=1 if n >= 3 else 9)
+                ctx.count("small_scope_expressions")
+        ctx.note("small_scope", "every structurally valid expression of the evaluation domain with up to %d leaves over 2 requirement keys, 1 hint, 2 format constraints, under all 3^k assignments" % (3 if ctx.quick else 4))
         ctx.count("operator_calls_observed", mon.calls)
 
 
